@@ -57,6 +57,18 @@ func TestSweep(t *testing.T) {
 			}
 		}
 	}
+	// results equal to what the destination already holds (zeros of both signs), for every instantiation
+	for _, e := range convtab.Entries {
+		var vals []kit.Val
+		if e.S.Kind == kit.Float {
+			vals = []kit.Val{kit.FV(0), kit.FV(math.Copysign(0, -1)), kit.FV(1e-300), kit.FV(-1e-300), kit.FV(0.5)}
+		} else {
+			vals = []kit.Val{convtab.AmpToCode(e.S, 0), convtab.AmpToCode(e.S, 1), convtab.AmpToCode(e.S, -1)}
+		}
+		for fill := 1; fill <= 2; fill++ {
+			Oracle.One(t, env, rec, "sweep", &Case{S: e.S.Name, D: e.D.Name, C: 2, Src: Win{Kr: 6, A: 1, B: 6}, Dst: Win{Kr: 7, A: 0, B: 6, Fix: fill % 3}, Vals: vals, DstFill: fill})
+		}
+	}
 	// every boundary float (incl. the neighbours of MaxFloat32, subnormals, infinities, NaN) through the four float-to-float conversions
 	for _, e := range convtab.Select("FloatAsFloat") {
 		b := bFloat64
